@@ -1183,6 +1183,91 @@ fn c14_checkpoint_into_existing_directory(dir: PathBuf) -> ScenFut<'static> {
     })
 }
 
+/// A compaction round completes while create_checkpoint sits between copying the tables and
+/// copying the manifest (no commit is in flight).
+fn c14_checkpoint_vs_compaction(dir: PathBuf) -> ScenFut<'static> {
+    Box::pin(async move {
+        let res = std::thread::spawn(move || -> Result<(), String> {
+            let rt = tokio::runtime::Builder::new_multi_thread().worker_threads(4).enable_all().build().map_err(|e| e.to_string())?;
+            rt.block_on(async move {
+                for vlog in [false, true] {
+                    let d = dir.join(if vlog { "vlog" } else { "plain" });
+                    let cfg = Cfg { cache: 0, vlog, vlog_threshold: 16, vlog_max_file: 512, level_count: 3, l0_max_files: 2, max_bytes_for_level: 1 << 20, ..base_cfg() };
+                    let t = std::sync::Arc::new(cfg.open(&d.join("src")).map_err(|e| e.to_string())?);
+                    let mut expect = std::collections::BTreeMap::new();
+                    for round in 0..3u8 {
+                        for i in 0..8u8 {
+                            let k = format!("k{i}").into_bytes();
+                            let v = format!("round{round}-key{i}-{}", "x".repeat(60)).into_bytes();
+                            put(&t, &[(&k[..], &v[..])]).await?;
+                            expect.insert(k, v);
+                        }
+                        t.verif_flush().map_err(|e| e.to_string())?;
+                    }
+                    let ck = d.join("ck");
+                    let ctl = crate::e3::ctl();
+                    ctl.reset();
+                    let gate = ctl.arm_gate("checkpoint.after_tables");
+                    let (tc, ckc) = (t.clone(), ck.clone());
+                    let h = tokio::runtime::Handle::current();
+                    let cp = std::thread::spawn(move || {
+                        let _g = h.enter();
+                        tc.create_checkpoint(&ckc).map(|_| ()).map_err(|e| e.to_string())
+                    });
+                    if !gate.wait_parked(5000) {
+                        gate.release();
+                        let _ = cp.join();
+                        ctl.reset();
+                        return Err("harness: create_checkpoint did not reach checkpoint.after_tables".into());
+                    }
+                    // compaction rounds run to completion in the meantime (issued from a helper: a
+                    // checkpoint holding a lock they need would make them wait, which is fine too)
+                    let tcomp = t.clone();
+                    let h2 = tokio::runtime::Handle::current();
+                    let comp = std::thread::spawn(move || {
+                        let _g = h2.enter();
+                        let mut n = 0;
+                        for _ in 0..3 {
+                            if let Ok(true) = tcomp.verif_compact_once() {
+                                n += 1;
+                            }
+                        }
+                        n
+                    });
+                    std::thread::sleep(std::time::Duration::from_millis(150));
+                    gate.release();
+                    let cres = cp.join().map_err(|_| "checkpoint thread panicked".to_string())?;
+                    let rounds = comp.join().map_err(|_| "compaction thread panicked".to_string())?;
+                    ctl.reset();
+                    cres.map_err(|e| format!("create_checkpoint failed: {e}"))?;
+                    let what = format!("value log {}: three flushed rounds of 8 keys; create_checkpoint paused between copying the tables and copying the manifest while {} compaction round(s) ran; no commit in flight", if vlog { "on" } else { "off" }, rounds);
+                    let o = match cfg.open(&ck) {
+                        Ok(o) => o,
+                        Err(e) => return Err(format!("{what}: the checkpoint directory does not open as a database: {e}")),
+                    };
+                    for (k, v) in &expect {
+                        match fresh_get(&o, k).await {
+                            Ok(Some(g)) if &g == v => {}
+                            other => {
+                                close(o).await;
+                                return Err(format!("{what}: in the opened checkpoint get({}) = {:?}, committed before the checkpoint: {} bytes", String::from_utf8_lossy(k), other.map(|v| v.map(|v| v.len())), v.len()));
+                            }
+                        }
+                    }
+                    close(o).await;
+                    if let Ok(t) = std::sync::Arc::try_unwrap(t) {
+                        close(t).await;
+                    }
+                }
+                Ok(())
+            })
+        })
+        .join()
+        .map_err(|_| "scenario thread panicked".to_string())?;
+        res
+    })
+}
+
 fn c14_version_index_not_restored(dir: PathBuf) -> ScenFut<'static> {
     Box::pin(async move {
         let cfg = ver_cfg(true);
@@ -2049,6 +2134,73 @@ fn c19_close_cancelled(dir: PathBuf) -> ScenFut<'static> {
     })
 }
 
+/// An open that fails after the directory lock was taken (damaged commit log in the strict
+/// recovery mode), then another open of the same directory in the same process.
+fn c19_failed_open_keeps_lock(dir: PathBuf) -> ScenFut<'static> {
+    Box::pin(async move {
+        let cfg = base_cfg();
+        let t = cfg.open(&dir).map_err(|e| e.to_string())?;
+        for i in 0..20u8 {
+            put(&t, &[(format!("key{i:02}").as_bytes(), &[b'v'; 100][..])]).await?;
+        }
+        close(t).await;
+        let seg = last_wal_segment(&dir).ok_or("no segment")?;
+        let mut bytes = std::fs::read(&seg).map_err(|e| e.to_string())?;
+        for b in &mut bytes[40..60] {
+            *b ^= 0xff;
+        }
+        std::fs::write(&seg, &bytes).map_err(|e| e.to_string())?;
+        let strict = Cfg { absolute_consistency: true, ..cfg.clone() }.open(&dir);
+        let strict_err = match strict {
+            Ok(t) => {
+                close(t).await;
+                return Err("harness: the damaged commit log opened in absolute-consistency mode".into());
+            }
+            Err(e) => e.to_string(),
+        };
+        // whatever the failed open left behind runs on this runtime
+        for _ in 0..100 {
+            match cfg.open(&dir) {
+                Ok(t) => {
+                    close(t).await;
+                    return Ok(());
+                }
+                Err(_) => tokio::time::sleep(std::time::Duration::from_millis(10)).await,
+            }
+        }
+        let e = cfg.open(&dir).err().map(|e| e.to_string()).unwrap_or_default();
+        Err(format!("an open in absolute-consistency mode failed ({}); no store came out of it, yet for 1 s every further open of the directory (now in the repairing mode) is refused: {}", strict_err.chars().take(90).collect::<String>(), e))
+    })
+}
+
+/// The last handle of a store is dropped on a thread that is not inside the runtime.
+fn c19_dropped_outside_runtime(dir: PathBuf) -> ScenFut<'static> {
+    Box::pin(async move {
+        let res = std::thread::spawn(move || -> Result<(), String> {
+            let rt = tokio::runtime::Builder::new_multi_thread().worker_threads(2).enable_all().build().map_err(|e| e.to_string())?;
+            let cfg = base_cfg();
+            let t = rt.block_on(async { cfg.open(&dir) }).map_err(|e| e.to_string())?;
+            rt.block_on(async { put(&t, &[(b"k", b"v1")]).await })?;
+            drop(t); // this thread is not inside the runtime
+            for _ in 0..200 {
+                match rt.block_on(async { cfg.open(&dir) }) {
+                    Ok(t) => {
+                        let v = get1(&t, b"k")?;
+                        rt.block_on(close(t));
+                        return if v.as_deref() == Some(&b"v1"[..]) { Ok(()) } else { Err("commit missing after the reopen".into()) };
+                    }
+                    Err(_) => std::thread::sleep(std::time::Duration::from_millis(10)),
+                }
+            }
+            let e = rt.block_on(async { cfg.open(&dir) }).err().map(|e| e.to_string()).unwrap_or_default();
+            Err(format!("a store opened inside a runtime was dropped on a thread outside it (the runtime keeps running); for 2 s every further open of the directory is refused: {e}"))
+        })
+        .join()
+        .map_err(|_| "scenario thread panicked".to_string())?;
+        res
+    })
+}
+
 fn c16_filter_block_unchecked(dir: PathBuf) -> ScenFut<'static> {
     Box::pin(async move {
         use surrealkv::verif::{verif_table_write, VerifEntry, VerifTableHandle};
@@ -2703,6 +2855,18 @@ pub fn all() -> Vec<Scenario> {
             run: c19_close_cancelled,
         },
         Scenario {
+            id: "C19-failed-open-keeps-lock",
+            property: "C19",
+            title: "an open fails after it took the directory lock; the directory is opened again in the same process",
+            run: c19_failed_open_keeps_lock,
+        },
+        Scenario {
+            id: "C19-dropped-outside-runtime",
+            property: "C19",
+            title: "the store handle is dropped on a thread outside the runtime it was opened in",
+            run: c19_dropped_outside_runtime,
+        },
+        Scenario {
             id: "C16-filter-block-unchecked",
             property: "C16",
             title: "every byte of a small table file altered in turn, then point lookups of all stored keys",
@@ -2797,6 +2961,12 @@ pub fn all() -> Vec<Scenario> {
             property: "C14",
             title: "second create_checkpoint into the directory of an earlier checkpoint",
             run: c14_checkpoint_into_existing_directory,
+        },
+        Scenario {
+            id: "C14-checkpoint-vs-compaction",
+            property: "C14",
+            title: "compaction rounds complete while create_checkpoint sits between copying the tables and copying the manifest",
+            run: c14_checkpoint_vs_compaction,
         },
         Scenario {
             id: "C14-vlog-writer-after-restore",
